@@ -57,10 +57,11 @@ Definition pipeline_ok (prefix_guard : string) (prefix : list pass_desc) (loop :
   before "CommonSubexpressionEliminationPass" "OutputFixPass" (names post) && before "OutputFixPass" "NameFixPass" (names post) &&
   String.eqb (last_name (names post)) "NameFixPass".
 
-(* ---- ir.passes.Sequential / PassManager over graph transformers that may raise (None) and report `modified` *)
-Definition mstage := graph -> option (graph * bool).
+(* ---- ir.passes.Sequential / PassManager over model transformers that may raise (None) and report `modified`; M = what a
+   pass transforms (a graph, or a graph with its table of initializer values) *)
+Definition mstage (M : Type) := M -> option (M * bool).
 
-Fixpoint run_seq (l : list mstage) (g : graph) : option (graph * bool) :=
+Fixpoint run_seq {M} (l : list (mstage M)) (g : M) : option (M * bool) :=
   match l with
   | [] => Some (g, false)
   | s :: t => match s g with
@@ -70,7 +71,7 @@ Fixpoint run_seq (l : list mstage) (g : graph) : option (graph * bool) :=
   end.
 
 (* PassManager(passes, steps, early_stop): for _ in range(steps): run all; if early_stop and not modified: break *)
-Fixpoint run_manager (steps : nat) (early_stop : bool) (body : list mstage) (g : graph) : option (graph * bool) :=
+Fixpoint run_manager {M} (steps : nat) (early_stop : bool) (body : list (mstage M)) (g : M) : option (M * bool) :=
   match steps with
   | O => Some (g, false)
   | S k => match run_seq body g with
@@ -82,6 +83,6 @@ Fixpoint run_manager (steps : nat) (early_stop : bool) (body : list mstage) (g :
   end.
 
 (* optimize_ir(model, num_iterations, stop_if_no_change, inline): Sequential([Inline]? ++ [PassManager(loop)] ++ post) *)
-Definition optimize_ir_model (inline : bool) (num_iterations : nat) (stop_if_no_change : bool)
-           (prefix loop post : list mstage) : mstage :=
+Definition optimize_ir_model {M} (inline : bool) (num_iterations : nat) (stop_if_no_change : bool)
+           (prefix loop post : list (mstage M)) : mstage M :=
   run_seq ((if inline then prefix else []) ++ [run_manager num_iterations stop_if_no_change loop] ++ post)%list.
